@@ -32,6 +32,7 @@ import (
 	"github.com/anyproto/any-sync/commonspace/object/acl/list"
 	"github.com/anyproto/any-sync/consensus/consensusproto"
 	"github.com/anyproto/any-sync/util/cidutil"
+	"github.com/anyproto/any-sync/util/crypto"
 
 	"verifharness/vfutil"
 )
@@ -62,6 +63,7 @@ type step struct {
 	Other   int        `json:"other,omitempty"`
 	Res     string     `json:"res,omitempty"`
 	Via     string     `json:"via,omitempty"`
+	Enc     string     `json:"enc,omitempty"` // Accept: encoding of the identities inside the record
 }
 
 type behaviour struct {
@@ -371,6 +373,7 @@ func (x *runner) doStep(s *step) {
 			x.drift("the client builder of %s refuses %v which the spec accepts: %v", s.A, s.Cs, err)
 			return
 		}
+		raw = w.reencode(raw, s.A, s.Enc)
 		rec, err := w.accept(raw, keys, s.Cs)
 		if err != nil {
 			if x.free {
@@ -386,6 +389,9 @@ func (x *runner) doStep(s *step) {
 			kinds[i] = c.K
 		}
 		x.rep.Case("accept/" + strings.Join(kinds, "+"))
+		if s.Enc != "" && s.Enc != "canonical" {
+			x.rep.Case("accept-encoding/" + s.Enc + "/" + kinds[0])
+		}
 		if d := x.compareSpec(s.Exp, w.refProj[len(w.log)-1]); d != "" {
 			x.drift("state after accepting %v by %s: %s", s.Cs, s.A, d)
 		}
@@ -744,6 +750,11 @@ func (x *runner) variantsAt(r *replica, s *step, at int) ([]variant, error) {
 		raw3 := decodeRaw(next())
 		raw3.Signature = nil
 		out = append(out, variant{"missing", wrap(raw3)})
+		if at >= 2 { // a genuine signature of another accepted record
+			raw4 := decodeRaw(next())
+			raw4.Signature = decodeRaw(w.log[at-1]).Signature
+			out = append(out, variant{"transplanted-from-accepted-record", wrap(raw4)})
+		}
 	case "acceptorSig":
 		raw := decodeRaw(next())
 		raw.AcceptorSignature = flip(raw.AcceptorSignature, 3, 1)
@@ -761,6 +772,13 @@ func (x *runner) variantsAt(r *replica, s *step, at int) ([]variant, error) {
 		raw4.AcceptorIdentity = author.Identity
 		raw4.AcceptorSignature = raw4.Signature
 		out = append(out, variant{"author-as-acceptor", wrap(raw4)})
+		if at >= 2 { // the network key's genuine signature over another accepted record, which this
+			// list's verifier has already checked
+			donor := decodeRaw(w.log[at-1])
+			raw5 := decodeRaw(next())
+			raw5.AcceptorIdentity, raw5.AcceptorSignature = donor.AcceptorIdentity, donor.AcceptorSignature
+			out = append(out, variant{"transplanted-from-accepted-record", wrap(raw5)})
+		}
 	case "nonHeadPrev":
 		raw := decodeRaw(next())
 		rec := decodeRecord(raw)
@@ -781,6 +799,12 @@ func (x *runner) variantsAt(r *replica, s *step, at int) ([]variant, error) {
 			return nil, fmt.Errorf("the acceptor accepts %v by %s", s.Cs, s.A)
 		}
 		out = append(out, variant{"not-signed-by-acceptor", wrap(raw)})
+		if at >= 2 { // the same record dressed with the acceptor signature of another accepted record
+			donor := decodeRaw(w.log[at-1])
+			dressed := &consensusproto.RawRecord{Payload: raw.Payload, Signature: raw.Signature,
+				AcceptorIdentity: donor.AcceptorIdentity, AcceptorSignature: donor.AcceptorSignature, AcceptorTimestamp: donor.AcceptorTimestamp}
+			out = append(out, variant{"acceptor-signature-transplanted", wrap(dressed)})
+		}
 	default:
 		return nil, fmt.Errorf("unknown tamper kind %s", s.Kind)
 	}
@@ -788,13 +812,12 @@ func (x *runner) variantsAt(r *replica, s *step, at int) ([]variant, error) {
 }
 
 func (w *world) nameOfIdentity(protoIdentity []byte) (string, bool) {
-	for n, k := range w.keys {
-		b, _ := k.SignKey.GetPublic().Marshall()
-		if sameBytes(b, protoIdentity) {
-			return n, true
-		}
+	pk, err := crypto.UnmarshalEd25519PublicKeyProto(protoIdentity)
+	if err != nil {
+		return "", false
 	}
-	return "", false
+	n, ok := w.nameOf[string(pk.Storage())]
+	return n, ok
 }
 
 func (x *runner) tamper(r *replica, s *step) {
